@@ -72,6 +72,7 @@ func (g *Gen) concPrivateGraph(sharedUntracked []int) {
 	ds := g.shapeOf(s)
 	w := g.leafDistinct(ds, true, -1.5, 1.5)
 	pool := []int{w, s}
+	direct := -1
 	if g.chance(0.6) {
 		// the shared untracked tensor as a DIRECT operand (back-edge target) next to a tracked one
 		var y int
@@ -97,6 +98,7 @@ func (g *Gen) concPrivateGraph(sharedUntracked []int) {
 		}
 		if g.isT(y) && len(g.shapeOf(y)) == len(ds) && prod(g.shapeOf(y)) == prod(ds) {
 			pool = append(pool, y)
+			direct = y
 		}
 	}
 	for i := 0; i < 2+g.intn(5); i++ {
@@ -105,7 +107,14 @@ func (g *Gen) concPrivateGraph(sharedUntracked []int) {
 			pool = append(pool, y)
 		}
 	}
-	g.do(Cmd{Op: OpBackprop, U: T(pool[len(pool)-1])})
+	root := pool[len(pool)-1]
+	if direct >= 0 && root != direct {
+		// make sure the back-propagation reaches the node that has the shared tensor as a direct back-edge target
+		if r2, o := g.do(Cmd{Op: OpBin, K: 8, T: root, U: T(direct)}); o.Kind == "tensor" {
+			root = r2
+		}
+	}
+	g.do(Cmd{Op: OpBackprop, U: T(root)})
 	g.do(Cmd{Op: OpGradOf, T: w})
 	if g.chance(0.5) {
 		g.do(Cmd{Op: OpReset, T: w, Flag: true})
